@@ -11,34 +11,35 @@ TRANSLATORS = [t9_circuit_core.translate]
 PROPERTY_FILE = 'Properties/C19.v'
 THEOREMS = ['C19_rename_outcome', 'C19_rename_ok_iff', 'C19_rename_references', 'C19_rename_semantics',
             'C19_rename_semantics_renamed_assignment', 'C19_rename_truth_table',
-            'C19_rename_evaluate_partial', 'C19_rename_get_truth_table_partial',
+            'C19_rename_evaluate', 'C19_rename_get_truth_table', 'C19_rename_get_truth_table_returns',
             'C19_replace_inputs_state', 'C19_replace_inputs_well_formed', 'C19_replace_inputs_cofactor',
-            'C19_replace_inputs_cofactor_assignment',
+            'C19_replace_inputs_cofactor_assignment', 'C19_replace_inputs_evaluate', 'C19_replace_inputs_truth_table',
+            'C19_replace_inputs_arities_accepted', 'C19_replace_inputs_entry_example',
             'C19_remove_gate_outcome', 'C19_no_users_iff', 'C19_remove_gate_state', 'C19_remove_gate_well_formed',
             'C19_remove_gate_semantics',
             'C19_replace_subcircuit_renaming', 'C19_replace_subcircuit_well_formed', 'C19_replace_subcircuit_semantics',
-            'C19_replace_subcircuit_truth_table', 'C19_replace_subcircuit_errors',
+            'C19_replace_subcircuit_truth_table', 'C19_replace_subcircuit_arities_accepted',
+            'C19_replace_subcircuit_outputs', 'C19_replace_subcircuit_evaluate', 'C19_replace_subcircuit_entry_example',
+            'C19_replace_subcircuit_errors',
             'C19_replace_subcircuit_arity_needed', 'C19_replace_subcircuit_example',
             'C19_example']
-PARTIAL = {'C19_rename_evaluate_partial': 'entry-point version of C19_rename_truth_table: evaluate on the renamed circuit gives '
-                                           'the same output vector whenever both calls return; that the second call returns '
-                                           'whenever the first does (completeness of the evaluators, other half of C01) is not '
-                                           'proved',
-           'C19_rename_get_truth_table_partial': 'get_truth_table before and after rename_gate are equal whenever both return; '
-                                                  'equality as `res` values needs completeness of the evaluators (C01). The '
-                                                  'statement over the relational semantics Eval (C19_rename_semantics, '
-                                                  'C19_rename_truth_table) is complete'}
+PARTIAL = {}
 LEVEL_TEXT = ('proved over the relational semantics Eval, for all well-formed circuits and all assignments: rename_gate - exact '
               'outcome (Ok iff old present and new absent, otherwise exactly CircuitGateIsAbsentError / '
               'CircuitGateAlreadyExistsError), gate map, operands, users index, inputs, outputs and blocks are the images '
               'under the renaming, the value of every gate is transported along the renaming, hence the output function is '
-              'unchanged; replace_inputs - remaining inputs in original order, chosen gates become operand-free constants, '
+              'unchanged, and at the entry points evaluate (every value vector) and get_truth_table return EQUAL results '
+              '(values and errors) before and after, for every well-formed circuit, no arity hypothesis; replace_inputs - remaining inputs in original order, chosen gates become operand-free constants, '
               'every gate value equals the value in the original circuit under the assignment extended by T->1, F->0 (the '
-              'cofactor); remove_gate - Ok iff the gate exists and nobody uses it (else exactly CircuitValidationError / '
+              'cofactor), and at the entry points evaluate on the result equals evaluate on the original with the constants '
+              'filled in positionally (as results) and the truth table of the result is the corresponding sub-table of the '
+              'original one (both calls return; WF, INPUT gates without operands and accepted arities assumed); remove_gate - Ok iff the gate exists and nobody uses it (else exactly CircuitValidationError / '
               'GateHasUsersError), it disappears from gate map, inputs and outputs, blocks mentioning it are dropped, every '
               'other gate keeps its value; replace_subcircuit - on Ok the state is well formed (C02) and, if the replacement '
               'reproduces at the mapped outputs the host values from the host values of the mapped inputs, every surviving '
-              'gate and the whole output vector keep their values modulo the renaming of the mapped gates; on failure the '
+              'gate and the whole output vector keep their values modulo the renaming of the mapped gates, the result has '
+              'accepted arities when host and replacement have, and evaluate / get_truth_table return equal results when no '
+              'primary input is removed; on failure the '
               'error is one of the seven documented kinds (never OutOfFuel: fuel adequacy of the slice loop and of the cycle '
               'check proved); code tie by exact correspondence of the full state after every call of generated histories '
               'and by the truth-table oracle on the implementation')
@@ -50,11 +51,16 @@ LEVEL_NOTE = ('Coq kernel + vm_compute; hand-written model (Model/Circuit.v rena
               'C19_replace_subcircuit_arity_needed); '
               'the equivalence hypothesis of replace_subcircuit is stated per host assignment ("sub maps the host values of '
               'the cut to the host values of the mapped outputs"), which is implied by functional equality on all cut '
-              'assignments. Statements are about Eval; the evaluators are tied to Eval by C01 (soundness half used for the two '
-              '..._partial entry-point theorems)')
+              'assignments. Statements are about Eval and, for rename_gate and replace_inputs, also about the entry points '
+              'evaluate / get_truth_table: rename_gate by a lock-step simulation of the stack evaluator (no arity hypothesis, '
+              'errors included), replace_inputs through soundness and completeness of the evaluators (C01; hypotheses Inv c, '
+              'arity_ok c). replace_subcircuit at the entry points (C19_replace_subcircuit_evaluate) needs in addition arity_ok sub and '
+              'inputs c\' = the renamed inputs of c (an input that is itself a replaced output is removed from the input '
+              'list, so the positional vectors would have different lengths)')
 TECHNIQUE = ('Coq proof: generic simulation lemmas for Eval (Proofs/SemExt.v: simulation along a renaming restricted to an '
              'operand-closed set, agreement, extension, restriction, congruence, existence from WF + arity); rename: equational '
-             'normal form of rename_gate + loop lemmas for success, structural image, two simulations; replace_inputs / '
+             'normal form of rename_gate + loop lemmas for success, structural image, two simulations, lock-step simulation '
+             'of eval_stack_loop with dictionaries related along the renaming (equal fuel: sum of arities is invariant); replace_inputs / '
              'remove_gate: state characterisation + simulation both ways; replace_subcircuit: composite renaming, gate-map '
              'characterisation of removal and re-insertion, splice argument by strong induction on the rank of the result '
              'with a nested induction on the derivation in the replacement, backward direction from existence + '
